@@ -66,6 +66,30 @@ def run(chk, tier):
     tf = sum(n for c, n in common.callees_of(tp).items() if c.endswith("TryFrom<u64> for i64>::try_from"))
     chk.floor("R03.4", "i64::try_from(u64) in type_prop (both operand orders)", tf, 2)
     chk.analysed.update({"bodies": nb, "operators": list(OPS)})
+    chk.rule("R03.6", "unary minus: checked negation on int, IEEE sign flip on double (so negative literals denote what they spell, incl. -0.0), error otherwise")
+    # ---- unary minus decision table (symbolic execution): int -> checked_neg (None = error), double -> the IEEE sign flip
+    # (MIR Neg on f64: -(+0.0) = -0.0, which `0.0 - x` is not), every other operand an error, a failed operand is kept
+    import symex, semtables
+    nb_ = F.body("<rscel::types::cel_value::CelValue as std::ops::Neg>::neg")
+    it_ = symex.Interp(F, semtables.LogicPolicy())
+    rows_ = {}
+    for st_, r_ in it_.run(nb_, [symex.U("a", "rscel::types::cel_value::CelValue")]):
+        pos = [c[2] for c in st_.cond if c[0] == "variant" and c[3] == "a"]
+        opt = [c[2] for c in st_.cond if c[0] == "variant" and "checked_neg" in str(c[3])]
+        err = [c for c in st_.cond if c[0] in ("eq", "ne") and c[1] == "CelValue::is_err(a)"]
+        failed = bool(err) and not (err[0][0] == "eq" and err[0][2] == 0)
+        key_ = "failed" if failed else ((pos[0] if pos else "other") + ("/" + opt[0] if opt else ""))
+        rows_[key_] = symex.render(r_)
+    want_ = {"failed": r"^a$", "Int/Some": r"^From::from<CelValue><-i64\(i64::checked_neg\(a\.Int\.0\)\.Some\.0\)$", "Int/None": r"^CelValue::from_err\(",
+             "Float": r"^From::from<CelValue><-f64\(Neg\(a\.Float\.0\)\)$", "other": r"^CelValue::from_err\("}
+    for k_, rx_ in want_.items():
+        g_ = rows_.get(k_)
+        if g_ is not None and re.match(rx_, g_):
+            chk.ok("R03.6", "neg|" + k_, g_[:80])
+        else:
+            chk.bad("R03.6", "neg|" + k_, "unary minus on %s yields %s; expected %s (int: checked negation, double: IEEE sign flip so that -(0.0) is -0.0, anything else an error)" % (k_, g_, rx_), nb_.file)
+    for k_ in set(rows_) - set(want_):
+        chk.bad("R03.6", "neg|" + k_, "unary minus has an unexpected case %s -> %s" % (k_, rows_[k_][:100]), nb_.file)
     return chk.finish(
         "MIR of the six arithmetic operator impls (incl. their error_prop_or closures) and type_prop: exhaustive over their Assert terminators, "
         "numeric casts and resolved callees. Decides that no integer arm can wrap or depend on the build profile and that widening is value-preserving; "
